@@ -388,7 +388,7 @@ def serve (v : View) (q : Query) : Outcome :=
     else
       -- DS at a delegation: answered from the parent side
       let dsStep : R Cut :=
-        if ¬ cut.auth ∧ q.qtype = 43 then
+        if ¬ cut.auth ∧ q.qtype = 43 ∧ q.qname.head? ≠ some 0 then
           match q.qname with
           | [] => .panic
           | n :: rest =>
